@@ -1085,6 +1085,25 @@ impl BackupManager {
         let mut deleted = Vec::new();
         let min_age_seconds = policy.min_age_days * day;
 
+        // Never delete a backup that a surviving backup depends on: close the set of survivors
+        // (kept by a bucket, or too young to prune) under parent links.
+        let parent_of: HashMap<Uuid, Option<Uuid>> =
+            backups.iter().map(|b| (b.id, b.parent_id)).collect();
+        let mut pending: Vec<Uuid> = backups
+            .iter()
+            .filter(|b| {
+                to_keep.contains(&b.id) || now.saturating_sub(b.timestamp) < min_age_seconds
+            })
+            .map(|b| b.id)
+            .collect();
+        while let Some(id) = pending.pop() {
+            if let Some(Some(parent)) = parent_of.get(&id) {
+                if to_keep.insert(*parent) {
+                    pending.push(*parent);
+                }
+            }
+        }
+
         for backup in &backups {
             if !to_keep.contains(&backup.id) {
                 let age = now.saturating_sub(backup.timestamp);
